@@ -211,7 +211,7 @@ def cmd_check(prop, tier):
         # a shrunk case must not have turned into a listed finding
         path = os.path.join(rdir, f"{prop}-{seed}-{idx}.json")
         small = dict(small)
-        small["expect"] = {"signature": list(sig), "final_hash": res["final_hash"], "digest": res["digest"], "violation": sv}
+        small["expect"] = {"signature": list(sig), "final_hash": res.get("final_hash"), "digest": res.get("digest"), "violation": sv}
         small["shrink_runs"] = nruns
         small["occurrences_in_batch"] = len(lst)
         with open(path, "w") as f:
@@ -258,7 +258,7 @@ def cmd_replay(path):
     if not got:
         print(f"not reproduced: expected {sig}, got {[runner.signature(v) for v in res['violations']]}")
         return 3
-    if exp.get("final_hash") and exp["final_hash"] != res["final_hash"]:
+    if exp.get("final_hash") and exp["final_hash"] != res.get("final_hash"):
         print(f"not reproduced exactly: final state hash {res['final_hash']} != recorded {exp['final_hash']}")
         return 3
     v = got[0]
